@@ -250,7 +250,7 @@ def gen_plan(rng):
         'early': rng.choice([None, None, None,
                              {'nth': rng.below(3),
                               'how': rng.choice(['exit', 'close',
-                                                 'exit_close'])}]),
+                                                 'exit_close', 'burst'])}]),
         # begin_auth() is a coroutine that needs this many events (and then
         # says no authentication is needed)
         'begin_auth_delay': rng.choice([0, 0, 0, 2, 10, 40]),
@@ -278,7 +278,8 @@ def valid_plan(plan):
 
         e = plan.get('early')
 
-        if e is not None and (e['how'] not in ('exit', 'close', 'exit_close')
+        if e is not None and (e['how'] not in ('exit', 'close', 'exit_close',
+                                               'burst')
                               or not 0 <= e['nth'] <= 8):
             return False
 
@@ -330,6 +331,11 @@ class Sess:
 
         if early and self.name == 'S%d' % early['nth']:
             self.run.sim.probes['session_over_at_once'] += 1
+
+            if early['how'] == 'burst':
+                # many (legal) requests right behind the confirmation
+                for i in range(1500):
+                    chan.set_xon_xoff(bool(i % 2))
 
             if 'exit' in early['how']:
                 chan.exit(3)
@@ -1134,6 +1140,8 @@ def run_plan(plan, sched_seed=None, sched_replay=None):
                             [getattr(t, 'sim_name', repr(t.get_coro()))
                              for t in tasks][:5])
 
+    world.check_task_exceptions(
+        ok=OK_ERRORS + (asyncssh.ChannelListenError,), ignore=(ValueError,) if f['kind'] == 'app_exc' else ())
     world.check_loop_health(allow_hang=True, loop_errors=False)
 
     sim.probes['op_error'] += run.op_errors
